@@ -85,6 +85,10 @@ def run(ctx):
     ctx.rule = ("for each of the 15 public detectors: configurations from boundary menus x piecewise-stationary histories built to "
                 "produce several drifts; every update's (drift_state,total,since,retraining_recs) row is judged by the Lean lifecycle "
                 "acceptor; a case is non-trivial when it contains >= 2 reported drifts (reaches a third epoch); distinct = distinct (detector, config, history)")
+    # reading a detector between updates (properties, statistics accessors, export / plotting frames) changes neither its
+    # counters nor anything it reports later (impl/zoo.accessor_failures)
+    for _f in zoo.accessor_failures(ctx, [f.name for f in zoo.FAMILIES], per_family=1 if ctx.quick else 4):
+        ctx.fail(signature={"clause": "reading-does-not-change-the-detector"}, **_f)
     lines, meta = [], []   # meta[i] = None | (case_idx, step)
     cases = []
     for fam in zoo.FAMILIES:
